@@ -365,3 +365,63 @@ Module Legacy.
   Definition legacy_init (sh : list (list trk)) (ids : list N) : lstate :=
     mkL (owned_init trk (option N * option N) sh ids) None.
 End Legacy.
+
+(* =====================================================================================================
+   One predict call of a simple tracker (Sort / VisualSort) as far as shards and schedules are concerned:
+     build the candidates            [cands_of]   (next_epoch, one candidate track per detection)
+     distance query on the n-shard store, some complete interleaving sigma of its workers (DistProto)
+     voting on the delivered stream  [winners]
+     sequential commit               [commit]     (per candidate: id issuing, add_track / merge_external)
+   The tracker state TS is abstract; [store_of] is the content of its store as a finite map (the `abs` of the
+   sharded store: the union of the shards, which does not depend on n - store_sharding_covers).
+   ===================================================================================================== *)
+Section Predict.
+  Variable track : Type.
+  Variable OBS : Type.
+  Variable MV : Type.
+  Variable tid : track -> N.
+  Variable compatible : track -> track -> bool.
+  Variable baked : track -> status.
+  Variable observations : track -> N -> option (list OBS).
+  Variable metric : N -> track -> OBS -> track -> OBS -> option MV.
+  Variable postprocess : track -> list (res MV) -> list (res MV).
+  Variable cls : N.
+  Variable ob : bool.
+
+  Variable TS : Type.
+  Variable IN : Type.
+  Variable OUT : Type.
+  Variable W : Type.
+  Variable store_of : TS -> list track.
+  Variable cands_of : TS -> IN -> TS * list track.
+  Variable winners : list (res MV) -> W.
+  Variable commit : TS -> list track -> W -> TS * OUT.
+
+  Inductive predict_rel (n : nat) (ts : TS) (inp : IN) : TS -> OUT -> Prop :=
+  | predict_intro sigma st :
+      drun track OBS MV tid compatible baked observations metric postprocess cls ob
+           (foreign_init track MV (distribute track tid n (store_of (fst (cands_of ts inp)))) (snd (cands_of ts inp))) sigma = Some st ->
+      dfinal track MV st = true ->
+      predict_rel n ts inp
+        (fst (commit (fst (cands_of ts inp)) (snd (cands_of ts inp)) (winners (concat (got_ok st)))))
+        (snd (commit (fst (cands_of ts inp)) (snd (cands_of ts inp)) (winners (concat (got_ok st))))).
+
+  Inductive history_rel (n : nat) : TS -> list IN -> TS -> list OUT -> Prop :=
+  | h_nil ts : history_rel n ts [] ts []
+  | h_cons ts inp ins ts1 o ts2 os :
+      predict_rel n ts inp ts1 o -> history_rel n ts1 ins ts2 os -> history_rel n ts (inp :: ins) ts2 (o :: os).
+
+  Variable tie_free : list (res MV) -> Prop.
+
+  (* the stream of the call is free of exact ties (stated on the specified multiset of distances) *)
+  Definition tie_free_call (ts : TS) (inp : IN) : Prop :=
+    tie_free (ok_spec track OBS MV tid compatible baked observations metric postprocess
+                      (store_of (fst (cands_of ts inp))) (snd (cands_of ts inp)) cls ob).
+
+  Inductive tie_free_history (n : nat) : TS -> list IN -> Prop :=
+  | tf_nil ts : tie_free_history n ts []
+  | tf_cons ts inp ins :
+      tie_free_call ts inp ->
+      (forall ts1 o, predict_rel n ts inp ts1 o -> tie_free_history n ts1 ins) ->
+      tie_free_history n ts (inp :: ins).
+End Predict.
